@@ -5,8 +5,8 @@
 From Coq Require Import List ZArith Lia Bool Arith String.
 From RG.Base Require Import Outcome GoInt GoSlice.
 From RG.Regex Require Import Utf8 Regex Capture.
-From RG.Engine Require Import TruncateSpec RenderSpec RenderLoop CommentSpec CommentLoop.
-From RGW Require Import Gen_C03 Inst_Render Gen_C12 Inst_Comment Gen_C12Loop Def_CommentLoop Inst_CommentLoop.
+From RG.Engine Require Import TruncateSpec RenderSpec RenderLoop CommentSpec CommentLoop CommentLoad.
+From RGW Require Import Gen_C03 Inst_Render Gen_C12 Inst_Comment Gen_C12Loop Def_CommentLoop Inst_CommentLoop Gen_C12Load Def_CommentLoad Inst_CommentLoad.
 Import ListNotations.
 Local Open Scope Z_scope.
 
@@ -106,6 +106,82 @@ Theorem C12_filter_reads_group_text :
   forall whole caps name nd, name <> dollar2 -> captured_by_name name caps = Some nd -> var_text name whole caps = n_text nd.
 Proof. exact filter_reads_group_text. Qed.
 
+(* ... and the Line a filter reads for it is the line of the file on which that node begins *)
+Theorem C12_filter_reads_group_line :
+  forall src whole caps name nd, name <> dollar2 -> captured_by_name name caps = Some nd ->
+  var_line src name whole caps = Some (line_of src (n_pos nd)).
+Proof. exact filter_reads_group_line. Qed.
+
+(* ------------------------------------------------------------------ MatchComment calls with several regexps *)
+(* loadCommentRule and the tail of loadRule that ranges over rule.CommentPatterns AS TRANSLATED FROM ir_loader.go on this
+   run (go2coq c12load), instantiated on the model's calls and rules, ARE the model loader: for all calls, all answers of
+   the regexp compiler, all rule lists loaded before. *)
+Theorem C12_translated_loader_is_model :
+  forall compile has_groups r dst,
+  to_opt (gen_load_rule compile has_groups r dst) = load_rule compile has_groups r dst.
+Proof. exact gen_load_rule_is_load_rule. Qed.
+Print Assumptions C12_translated_loader_is_model.
+
+Theorem C12_translated_loading_of_files_is_model :
+  forall compile has_groups files dst,
+  gen_load_files compile has_groups files dst = load_files compile has_groups files dst.
+Proof. exact gen_load_files_is_load_files. Qed.
+
+(* a call with k regexps yields exactly k comment rules, appended in the written order; rule j carries alternative j's OWN
+   compiled regexp (its names in its own numbering), its own capture flag, its own line *)
+Theorem C12_alternatives_are_rules_in_written_order :
+  forall compile has_groups r dst out,
+  load_rule compile has_groups r dst = Some out ->
+  exists rs, out = dst ++ rs /\ List.length rs = List.length (i_alts r) /\
+    forall j a, nth_error (i_alts r) j = Some a ->
+      exists names, compile (a_pat a) = Some names /\ vars_bound r names = true /\
+                    nth_error rs j = Some (alt_rule has_groups r names a).
+Proof. exact alternatives_are_rules_in_written_order. Qed.
+Print Assumptions C12_alternatives_are_rules_in_written_order.
+
+(* A CALL WITH k ALTERNATIVES IS k CALLS WITH ONE ALTERNATIVE EACH, IN THE WRITTEN ORDER *)
+Theorem C12_k_alternatives_are_k_rules :
+  forall compile has_groups pre r post dst,
+  load_rules compile has_groups (pre ++ r :: post) dst =
+  load_rules compile has_groups (pre ++ map (single r) (i_alts r) ++ post) dst.
+Proof. exact k_alternatives_are_k_rules. Qed.
+
+(* rules files loaded one after the other: the rules of the files in load order, each file's calls in source order *)
+Theorem C12_load_order_is_file_order_then_source_order :
+  forall compile has_groups files dst out,
+  load_files compile has_groups files dst = Some out ->
+  exists per_file, out = dst ++ List.concat per_file /\
+    Forall2 (fun f rs => load_rules compile has_groups f [] = Some rs) files per_file.
+Proof. exact load_files_is_concat. Qed.
+
+(* what the rule loop does with the LOADED list is the specification "call by call, alternative by alternative in the
+   written order, each alternative matched on its own": the regexp oracle `ans` is a function of ONE alternative's source *)
+Theorem C12_loaded_run_is_call_by_call :
+  forall compile has_groups re l src off text ans rs rules,
+  load_rules compile has_groups rs [] = Some rules ->
+  List.length rules = List.length (pats_of rs) /\
+  run_comment_rules nodeTextInRange re l src off text (combine rules (map ans (pats_of rs))) =
+  run_calls compile has_groups nodeTextInRange re l src off text ans rs.
+Proof. intros compile has_groups re. exact (loaded_run_is_call_by_call compile has_groups nodeTextInRange re). Qed.
+Print Assumptions C12_loaded_run_is_call_by_call.
+
+(* the report comes from ONE alternative of ONE call, judged on that alternative's own names and its own regexp's answer;
+   no earlier call reports and no alternative written before it in the same call matches and accepts -- where in the
+   comment the alternatives match plays no role *)
+Theorem C12_report_is_first_accepting_alternative :
+  forall compile has_groups re l src off text ans rs rules rep,
+  load_rules compile has_groups rs [] = Some rules ->
+  run_comment_rules nodeTextInRange re l src off text (combine rules (map ans (pats_of rs))) = Ok (Some rep) ->
+  exists i r j a names,
+    nth_error rs i = Some r /\ nth_error (i_alts r) j = Some a /\ compile (a_pat a) = Some names /\
+    try_rule nodeTextInRange re l src off text (alt_rule has_groups r names a) (ans (a_pat a)) = Ok (Some rep) /\
+    (forall j' a' names', (j' < j)%nat -> nth_error (i_alts r) j' = Some a' -> compile (a_pat a') = Some names' ->
+       try_rule nodeTextInRange re l src off text (alt_rule has_groups r names' a') (ans (a_pat a')) = Ok None) /\
+    (forall i' r', (i' < i)%nat -> nth_error rs i' = Some r' ->
+       run_alts compile has_groups nodeTextInRange re l src off text ans r' (i_alts r') = Ok None).
+Proof. intros compile has_groups re. exact (report_is_first_accepting_alternative compile has_groups nodeTextInRange re). Qed.
+Print Assumptions C12_report_is_first_accepting_alternative.
+
 (* choosing the no-submatch path is safe: without capture groups SubexpNames() = [""] and there is nothing to capture;
    and the flag that chooses the path is decided correctly (C11_has_capture_correct) by a function that is nothing but
    the parse and that walk (fact of C12_comment_path_facts) *)
@@ -141,6 +217,26 @@ Example c12_example :
   = Ok (Some {| rep_pos := 6; rep_end := 9; rep_msg := [118;124;107;61;118]; rep_sugg := Some (6, 9, [118]); rep_line := 5 |})
   /\ sub src 3 (3 + len text) = text.
 Proof. split; vm_compute; reflexivity. Qed.
+
+(* non-vacuity, and why the alternatives must stay separate rules: the call MatchComment(`(?P<word>teh)`, `(?P<word>recieve)`)
+   with Report(`$word`) on the comment "// recieve teh" (both alternatives hit, the second-written one further left): loaded
+   as two rules in the written order the FIRST alternative reports "teh" at [11,14); a single rule for the joined regexp
+   (names "", word, word -- Go accepts the duplicate name; leftmost match: the second group) reads "" for m["word"] (the
+   first group of that name did not take part), so the filter m["word"].Text != "" rejects and nothing is reported. *)
+Example c12_alternatives_stay_separate :
+  let src := [47;47;32; 114;101;99;105;101;118;101; 32; 116;101;104] in
+  let word := [119;111;114;100] in
+  let call := {| i_alts := [ {| a_pat := [1]; a_line := 3 |}; {| a_pat := [2]; a_line := 4 |} ];
+                 i_filter := FTextNe word []; i_msg := [36;119;111;114;100]; i_sugg := []; i_loc := None |} in
+  let compile := fun p : bytes => Some [[]; word] in
+  let ans := fun p : bytes => match p with [1] => Some [11;14;11;14] | _ => Some [3;10;3;10] end in
+  (exists rules, load_rules compile (fun _ => true) [call] [] = Some rules /\ List.length rules = 2%nat /\
+     run_comment_rules nodeTextInRange (fun _ _ => None) 0 src 0 src (combine rules (map ans (pats_of [call])))
+     = Ok (Some {| rep_pos := 11; rep_end := 14; rep_msg := [116;101;104]; rep_sugg := None; rep_line := 3 |})) /\
+  (let joined := {| c_names := [[]; word; word]; c_groups := true; c_filter := FTextNe word [];
+                    c_rule := {| r_msg := [36;119;111;114;100]; r_sugg := []; r_loc := None; r_line := 3 |} |} in
+   run_comment_rules nodeTextInRange (fun _ _ => None) 0 src 0 src [(joined, Some [3;10;-1;-1;3;10])] = Ok None).
+Proof. split; [eexists; split; [reflexivity|split; [reflexivity|vm_compute; reflexivity]]|vm_compute; reflexivity]. Qed.
 
 (* the freshness parameter matters: on the comment "//a-b" two rules bind `v`, the first to "a" (its filter wants "z" and
    rejects), the second to "b" (its filter wants "b"). Judged on its own submatches the second rule reports; were the
